@@ -424,6 +424,16 @@ class Evaluator:
                 if int(x['v']) == v.v:
                     return x['t']
             return t['o']
+        if isinstance(v, S):
+            # a vector with some concrete bits: a target whose value disagrees with a concrete bit is excluded;
+            # when every listed value is excluded, only `otherwise` is left
+            def excluded(val):
+                for i, bit in enumerate(v.bits):
+                    if bit in ('0', '1') and ((val >> i) & 1) != int(bit):
+                        return True
+                return (val >> len(v.bits)) != 0
+            if all(excluded(int(x['v'])) for x in t['ts']):
+                return t['o']
         # unknown condition: a debug assertion (one side only panics)?
         succ = [x['t'] for x in t['ts']] + [t['o']]
         live = [s for s in dict.fromkeys(succ) if not self.only_diverges(body, s)]
